@@ -148,15 +148,26 @@ fn op_generic<T: Tok + Serialize + DeserializeOwned>(op: &str, args: &[&str]) ->
         }
         "json_rt" => {
             let x: T = parse_all(args)?;
+            // read the JSON back along three routes (text, reader, serde_json::Value): all must give the value back
             Some(match serde_json::to_string(&x) {
-                Ok(s) => match serde_json::from_str::<T>(&s) {
-                    Ok(y) => format!("OK {}", (show(&y) == show(&x)) as u8),
-                    Err(_) => "ERR".into(),
-                },
+                Ok(s) => {
+                    let want = show(&x);
+                    let a = serde_json::from_str::<T>(&s).map(|y| show(&y) == want);
+                    let b = serde_json::from_reader::<_, T>(s.as_bytes()).map(|y| show(&y) == want);
+                    let c = serde_json::to_value(&x).and_then(serde_json::from_value::<T>).map(|y| show(&y) == want);
+                    match (a, b, c) {
+                        (Ok(a), Ok(b), Ok(c)) => format!("OK {}", (a && b && c) as u8),
+                        (Err(_), Err(_), Err(_)) => "ERR".into(),
+                        (a, b, c) => format!("ROUTES-DISAGREE:text={}:reader={}:value={}", a.is_ok(), b.is_ok(), c.is_ok()),
+                    }
+                }
                 Err(_) => "ERR".into(),
             })
         }
         "json_de" => {
+            // arbitrary (possibly non-canonical) JSON: the text deserializer only.  serde_json's Value route is stricter on
+            // non-canonical shapes (e.g. it refuses the positional form of a struct variant), which is a property of serde_json,
+            // not of the crate; canonical output is read along all three routes in json_rt.
             let text = json_text_of_tokens(args)?;
             Some(match serde_json::from_str::<T>(&text) {
                 Ok(y) => format!("OK {}", show(&y)),
@@ -316,10 +327,20 @@ pub fn run(op: &str, args: &[&str]) -> Option<String> {
             let b = unhex(h)?;
             // a JSON text is UTF-8: other byte strings cannot be the content of a JSON string at all
             return Some(match String::from_utf8(b) {
-                Ok(s) => match serde_json::from_str::<Address>(&serde_json::to_string(&s).ok()?) {
-                    Ok(a) => format!("OK {}", show(&a)),
-                    Err(_) => "ERR".to_string(),
-                },
+                Ok(s) => {
+                    let text = serde_json::to_string(&s).ok()?;
+                    let a = serde_json::from_str::<Address>(&text).map(|a| show(&a)).map_err(|_| ());
+                    let b = serde_json::from_reader::<_, Address>(text.as_bytes()).map(|a| show(&a)).map_err(|_| ());
+                    let c = serde_json::from_value::<Address>(serde_json::Value::String(s.clone())).map(|a| show(&a)).map_err(|_| ());
+                    if a == b && b == c {
+                        match a {
+                            Ok(a) => format!("OK {}", a),
+                            Err(_) => "ERR".to_string(),
+                        }
+                    } else {
+                        format!("ROUTES-DISAGREE:text={}:reader={}:value={}", a.is_ok(), b.is_ok(), c.is_ok())
+                    }
+                }
                 Err(_) => "ERR".to_string(),
             });
         }
